@@ -125,6 +125,7 @@ type syncState struct {
 	wg     map[*value]int64
 	once   map[*value]bool
 	timers []*timerRec
+	smaps  map[*value]*mapObj // sync.Map: one ordinary map per object (the executor is sequential)
 }
 
 type timerRec struct {
@@ -654,6 +655,69 @@ func init() {
 		}
 		st.once[p] = true
 		m.callValueNested(m.cur, args[1], nil)
+		return nil, true
+	})
+
+	// sync.Map: an ordinary map[any]any per object. The executor runs one coroutine at a time and
+	// switches only at blocking operations, so the lock-free machinery of the real type has nothing to do.
+	smap := func(m *Machine, recv value) *mapObj {
+		p := recv.(*value)
+		st := m.sync()
+		if st.smaps == nil {
+			st.smaps = map[*value]*mapObj{}
+		}
+		mo := st.smaps[p]
+		if mo == nil {
+			any := types.NewInterfaceType(nil, nil)
+			mo = newMap(any, any)
+			st.smaps[p] = mo
+		}
+		return mo
+	}
+	nilAny := func() value { return iface{} }
+	reg("(*sync.Map).Load", func(m *Machine, fr *frame, fn *ssa.Function, args []value) (value, bool) {
+		if v, ok := m.mapLookup(smap(m, args[0]), args[1]); ok {
+			return tuple{v, true}, true
+		}
+		return tuple{nilAny(), false}, true
+	})
+	reg("(*sync.Map).Store", func(m *Machine, fr *frame, fn *ssa.Function, args []value) (value, bool) {
+		m.mapInsert(smap(m, args[0]), args[1], args[2])
+		return nil, true
+	})
+	reg("(*sync.Map).LoadOrStore", func(m *Machine, fr *frame, fn *ssa.Function, args []value) (value, bool) {
+		mo := smap(m, args[0])
+		if v, ok := m.mapLookup(mo, args[1]); ok {
+			return tuple{v, true}, true
+		}
+		m.mapInsert(mo, args[1], args[2])
+		return tuple{args[2], false}, true
+	})
+	reg("(*sync.Map).LoadAndDelete", func(m *Machine, fr *frame, fn *ssa.Function, args []value) (value, bool) {
+		mo := smap(m, args[0])
+		if v, ok := m.mapLookup(mo, args[1]); ok {
+			m.mapDelete(mo, args[1])
+			return tuple{v, true}, true
+		}
+		return tuple{nilAny(), false}, true
+	})
+	reg("(*sync.Map).Delete", func(m *Machine, fr *frame, fn *ssa.Function, args []value) (value, bool) {
+		m.mapDelete(smap(m, args[0]), args[1])
+		return nil, true
+	})
+	reg("(*sync.Map).Range", func(m *Machine, fr *frame, fn *ssa.Function, args []value) (value, bool) {
+		mo := smap(m, args[0])
+		for _, e := range append([]*mentry{}, mo.entries...) {
+			if e.deleted {
+				continue
+			}
+			r := m.callValueNested(m.cur, args[1], []value{e.key, e.val})
+			if b, ok := r.(bool); ok && !b {
+				break
+			} else if !ok {
+				m.unsupported("sync.Map.Range callback with a symbolic result")
+			}
+		}
 		return nil, true
 	})
 
